@@ -17,6 +17,13 @@ must not depend on a common factor of the weights, and must reproduce noise-free
 by a member of the family (special angles +-45, 90, 135, 180 degrees, axis flips, on exactly
 symmetric sets, lattices and two-point sets).
 
+Collinearity guard of fit_general (repaired finding F13): the quantity the guard tests,
+(cuu*cvv - cuv^2)/((cuu+cvv)/2)^2 of the weighted second central moments of uv, is computed exactly
+from the data (`common.guard_ratio`).  Below 2^-52/64 the implementation must raise
+SingularMatrixError, above 2^-52*64 it must fit; a model/implementation mismatch about `singular`
+is a disagreement in exact mode outside that band (in double mode outside the band widened by the
+rounding error 4(n+4) 2^-53 of the model's own evaluation in doubles), a near-tie only inside.
+
 Tolerances: matrix entries 1e-9 * max(1, |F|), shifts 1e-9 * max(A, |s|).  `general` fits whose
 (scale-free) normal matrix has condition number > 1e6 are compared through S only (counted as
 near-ties); on doubles the tolerance is max(1e-9, 256 cond eps).  When the two branches of
@@ -28,7 +35,8 @@ import math
 
 import numpy as np
 
-from ..common import Fraction, q2s, f2x, x2f, s2q, to_fraction
+from ..common import (Fraction, q2s, f2x, x2f, s2q, to_fraction, guard_ratio, guard_expect,
+                      guard_mismatch_is_tie)
 
 ID = 'C06'
 RULE = ('fits of the four geometries on point sets from 9 families (random, clustered, integer '
@@ -43,7 +51,8 @@ ASSUMPTIONS = [
     'atan2, cos, sin are interpreted by Complex.arg, Real.cos, Real.sin (Proofs/Trig.lean); the '
     'driver evaluates them with the C library on doubles',
     'weights and points have the same length (numpy broadcasting enforces it)',
-    'degenerate (collinear / coincident) input of fit_general belongs to C17',
+    'exactly collinear / coincident input of fit_general must be refused by both sides (C17 proves it for '
+    'the model); thin but legitimate sets (guard quantity above 2^-46) must be fitted by both',
 ]
 
 MINOBJ = {'shift': 1, 'rshift': 2, 'rscale': 2, 'general': 3}
@@ -481,7 +490,9 @@ def gen_case(rng):
 
 def gen_rejected(rng):
     geom = rng.choice(GEOMS)
-    kind = rng.choice(['toofew', 'negative', 'zeros', 'coincident'])
+    kind = rng.choice(['toofew', 'negative', 'zeros', 'coincident', 'collinear-general', 'coincident-general'])
+    if kind in ('collinear-general', 'coincident-general'):
+        return gen_degenerate_general(rng, kind)
     lo = MINOBJ[geom]
     if kind == 'toofew':
         n = rng.randint(0, lo - 1)
@@ -518,6 +529,106 @@ def gen_rejected(rng):
     return {'op': 'fit', 'geom': geom, 'family': 'rejected:' + kind, 'wmode': wmode, 'xy': xy, 'uv': uv,
             'wxy': wxy, 'wuv': wuv, 'expect': {'toofew': 'notEnoughPoints', 'negative': 'badWeights',
                                                 'zeros': 'badWeights', 'coincident': 'singular'}[kind]}
+
+
+def gen_degenerate_general(rng, kind):
+    """exactly collinear / coincident integer points (dyadic scale) for fit_general, all weight modes, with
+    zero-weight points off the line: both the model and the implementation must report `singular`"""
+    n = rng.randint(3, 12)
+    sc = rng.choice([1.0, 1.0, 0.5, 0.125, 16.0, 1024.0])
+    o = (rng.randint(-40, 40), rng.randint(-40, 40))
+    if rng.random() < 0.2:
+        o = (o[0] + rng.choice([-1, 1]) * 10 ** 6, o[1] + rng.choice([-1, 1]) * 2 * 10 ** 6)
+    if kind == 'coincident-general':
+        uv = [[o[0] * sc, o[1] * sc] for _ in range(n)]
+    else:
+        d = rng.choice([(1, 0), (0, 1), (1, 1), (1, -1), (2, 1), (1, 2), (3, 7), (5, -2), (7, 3)])
+        ts = rng.sample(range(-30, 31), n)
+        uv = [[(o[0] + t * d[0]) * sc, (o[1] + t * d[1]) * sc] for t in ts]
+    wmode = rng.choice([0, 1, 2, 3])
+    wxy = [float(rng.randint(1, 9)) for _ in range(n)] if wmode in (1, 3) else None
+    wuv = [float(rng.randint(1, 9)) for _ in range(n)] if wmode in (2, 3) else None
+    if wmode and n >= 5 and rng.random() < 0.5:
+        # one or two points off the line that carry no weight
+        for i in rng.sample(range(n), rng.randint(1, 2)):
+            uv[i] = [uv[i][0] + sc * rng.randint(1, 9), uv[i][1] - sc * rng.randint(1, 9)]
+            lst = rng.choice([l for l in (wxy, wuv) if l is not None])
+            lst[i] = 0.0
+    m, s = random_member(rng, 'general')
+    xy = apply(m, s, uv)
+    if rng.random() < 0.5:
+        xy = [[x + rng.gauss(0, 0.1), y + rng.gauss(0, 0.1)] for x, y in xy]
+    return {'op': 'fit', 'geom': 'general', 'family': 'rejected:' + kind, 'wmode': wmode, 'xy': xy, 'uv': uv,
+            'wxy': wxy, 'wuv': wuv, 'expect': 'singular'}
+
+
+THIN_BASE = [(-1.0, 0.3), (-0.6, -0.8), (-0.2, 1.0), (0.1, -0.4), (0.5, 0.7), (0.9, -1.0), (1.0, 0.2)]
+THIN_NOISE = [(0.31, -0.12), (-0.77, 0.45), (0.08, 0.93), (-0.52, -0.64), (0.99, 0.17), (-0.23, 0.71), (0.66, -0.88)]
+
+
+def thin_sets():
+    """thin but legitimate point sets: aspect ratio 1e-6 .. 1e-3, long axis along u, along v and rotated by
+    30 degrees; the guard quantity is about 4 aspect^2 >= 4e-12, far above 2^-52: both sides must fit"""
+    out = []
+    L = 100.0
+    c30, s30 = math.cos(math.radians(30)), math.sin(math.radians(30))
+    T = [[1.01, 0.02], [-0.015, 0.99]]
+    sh = [3.5, -2.25]
+    for a in (1e-6, 1e-5, 1e-4, 1e-3):
+        for orient in ('u', 'v', 'r30'):
+            if orient == 'u':
+                uv = [[L * t, L * a * q] for t, q in THIN_BASE]
+            elif orient == 'v':
+                uv = [[L * a * q, L * t] for t, q in THIN_BASE]
+            else:
+                uv = [[L * (c30 * t - s30 * a * q) + 17.0, L * (s30 * t + c30 * a * q) - 5.0] for t, q in THIN_BASE]
+            xy = apply(T, sh, uv)
+            out.append({'geom': 'general', 'uv': uv, 'xy': xy, 'truth': [T[0][0], T[0][1], T[1][0], T[1][1]] + sh,
+                        'must_fit': True, 'family': 'corpus-thin'})
+            out.append({'geom': 'general', 'uv': uv,
+                        'xy': [[x + 1e-3 * e[0], y + 1e-3 * e[1]] for (x, y), e in zip(xy, THIN_NOISE)],
+                        'must_fit': True, 'family': 'corpus-thin'})
+            out.append({'geom': 'general', 'uv': uv,
+                        'xy': [[x + 1e-3 * e[0], y + 1e-3 * e[1]] for (x, y), e in zip(xy, THIN_NOISE)],
+                        'wxy': [1.0, 2.0, 1.0, 0.5, 3.0, 1.0, 2.0], 'wuv': [2.0, 1.0, 4.0, 1.0, 1.0, 0.25, 1.0], 'wmode': 3,
+                        'must_fit': True, 'family': 'corpus-thin'})
+    return out
+
+
+def degenerate_sets():
+    """exactly collinear / coincident integer sets: both sides must report `singular`"""
+    out = []
+    w6 = [1.0, 2.0, 3.0, 1.0, 5.0, 2.0]
+    v6 = [4.0, 1.0, 1.0, 2.0, 1.0, 3.0]
+    line = [[4.0, 1.0], [7.0, 3.0], [10.0, 5.0], [-2.0, -3.0], [1.0, -1.0], [13.0, 7.0]]      # 2u - 3v = 5
+    sets = [
+        ('F13-witness', [[2.0, 3.0], [-1.0, 0.0], [-9.0, -8.0]]),
+        ('line-2u-3v=5', line),
+        ('vertical', [[5.0, float(t)] for t in (-3, 0, 1, 4, 9)]),
+        ('horizontal', [[float(t), -3.0] for t in (-3, 0, 1, 4, 9)]),
+        ('diagonal-far', [[1000000.0 + 3 * t, 2000000.0 - 7 * t] for t in (-5, -1, 0, 2, 7, 11)]),
+        ('coincident', [[7.0, -2.0]] * 5),
+        ('coincident-origin', [[0.0, 0.0]] * 3),
+    ]
+    for name, uv in sets:
+        n = len(uv)
+        xy = [[u + 1.0 + 0.25 * (i % 3), v - 2.0 - 0.5 * (i % 2)] for i, (u, v) in enumerate(uv)]
+        out.append({'geom': 'general', 'uv': uv, 'xy': xy, 'expect': 'singular', 'family': 'corpus-degenerate'})
+        out.append({'geom': 'general', 'uv': uv, 'xy': xy, 'wxy': (w6 * 2)[:n], 'wmode': 1, 'expect': 'singular',
+                    'family': 'corpus-degenerate'})
+        out.append({'geom': 'general', 'uv': uv, 'xy': xy, 'wxy': (w6 * 2)[:n], 'wuv': (v6 * 2)[:n], 'wmode': 3,
+                    'expect': 'singular', 'family': 'corpus-degenerate'})
+    # the only points off the line carry no weight (wxy zero / complementary zeros in both lists)
+    uv = line + [[0.0, 9.0], [3.0, -8.0]]
+    xy = [[u + 1.0, v - 2.0] for u, v in uv]
+    out.append({'geom': 'general', 'uv': uv, 'xy': xy, 'wxy': w6 + [0.0, 0.0], 'wmode': 1, 'expect': 'singular',
+                'family': 'corpus-degenerate'})
+    out.append({'geom': 'general', 'uv': uv, 'xy': xy, 'wxy': w6 + [0.0, 2.0], 'wuv': v6 + [3.0, 0.0], 'wmode': 3,
+                'expect': 'singular', 'family': 'corpus-degenerate'})
+    # ... and the same points with weight: a legitimate fit
+    out.append({'geom': 'general', 'uv': uv, 'xy': xy, 'wxy': w6 + [1.0, 2.0], 'wmode': 1, 'must_fit': True,
+                'truth': [1.0, 0.0, 0.0, 1.0, 1.0, -2.0], 'family': 'corpus-thin'})
+    return out
 
 
 def _r45(p):
@@ -568,15 +679,19 @@ def corpus():
     out.append({'geom': 'shift', 'uv': [[3.0, 4.0]], 'xy': [[1.0, 1.0]], 'truth': [1.0, 0.0, 0.0, 1.0, -2.0, -3.0]})
     # all points identical in xy (zero matrix is the optimum of rscale)
     out.append({'geom': 'rscale', 'uv': square, 'xy': [[2.0, 3.0]] * 4})
+    out += thin_sets() + degenerate_sets()
     res = []
     for c in out:
-        d = {'op': 'fit', 'geom': c['geom'], 'family': 'corpus', 'wmode': c.get('wmode', 0),
+        d = {'op': 'fit', 'geom': c['geom'], 'family': c.get('family', 'corpus'), 'wmode': c.get('wmode', 0),
              'xy': [list(map(float, p)) for p in c['xy']], 'uv': [list(map(float, p)) for p in c['uv']],
              'wxy': c.get('wxy'), 'wuv': c.get('wuv')}
         if 'truth' in c:
             d['truth'] = c['truth']
         if 'truth_fit' in c:
             d['truth_fit'] = c['truth_fit']
+        for k in ('expect', 'must_fit'):
+            if k in c:
+                d[k] = c[k]
         res.append(d)
     return res
 
@@ -662,6 +777,8 @@ def check_case(ctx, case, lines, pending):
     # ---- property oracle on the implementation ------------------------------
     if 'expect' in case:
         ctx.branch('expect:' + case['expect'])
+        if geom == 'general' and case['expect'] == 'singular':
+            info['ratio'] = guard_ratio([(to_fraction(a), to_fraction(b)) for a, b in uv], eff_weights(n, wxy, wuv))
         if res[0] != 'err' or res[1] != case['expect']:
             ctx.oracle_fail(case, {'what': 'input that must be rejected with %s' % case['expect'],
                                    'got': list(res[:2])})
@@ -681,16 +798,35 @@ def check_case(ctx, case, lines, pending):
     info['w'] = w
     if geom == 'general':
         info['cond'] = cond_general(case, w)
+        # the collinearity guard, exactly: which way must a long-double evaluation decide?
+        ratio = guard_ratio(fu, w)
+        info['ratio'] = ratio
+        verdict = guard_expect(ratio)
+        ctx.branch('guard:' + verdict)
+        if verdict == 'singular':
+            if res[0] != 'err' or res[1] != 'singular':
+                ctx.oracle_fail(case, {'what': 'points collinear / coincident to within 2^-58 (guard quantity '
+                                               '(cuu*cvv-cuv^2)/((cuu+cvv)/2)^2 below 2^-52/64) were not refused '
+                                               'with SingularMatrixError', 'guard_quantity': float(ratio),
+                                       'got': list(res[:2])})
+            return
+        if verdict == 'tie':
+            ctx.near_tie()
+            if res[0] != 'ok':
+                return
+        elif res[0] != 'ok':
+            ctx.oracle_fail(case, {'what': 'a well-posed fit raised (guard quantity above 2^-52*64)',
+                                   'guard_quantity': float(ratio), 'got': list(res[:2])})
+            return
     if opt['status'] != 'ok':
         ctx.branch('degenerate-input')
         ctx.near_tie()
         return
     if res[0] != 'ok':
-        if geom == 'general' and info['cond'] > 1e12:
-            ctx.near_tie()
-            return
         ctx.oracle_fail(case, {'what': 'a well-posed fit raised', 'got': list(res[:2])})
         return
+    if case.get('must_fit'):
+        ctx.branch('corpus:thin-set-fitted')
     p = res[1]
     if not all(math.isfinite(v) for v in p):
         ctx.oracle_fail(case, {'what': 'non-finite parameters', 'impl': p})
@@ -770,7 +906,9 @@ def check_case(ctx, case, lines, pending):
         if r2[0] != 'ok':
             ctx.oracle_fail(case, {'what': 'scaling all weights by %g makes the fit fail' % k, 'got': list(r2[:2])})
         else:
-            ok, det = positions_close(r2[1], p, uv, A, w=w)
+            # same admissible error as for the objective: 1e-9, or the elimination bound 64 n cond eps_ld of an
+            # ill-conditioned normal matrix of fit_general (thin point sets of the corpus)
+            ok, det = positions_close(r2[1], p, uv, A, rel=relerr, w=w)
             if not ok:
                 det.update({'what': 'scaling all weights by %g changes the fit' % k, 'impl': p, 'scaled': r2[1]})
                 ctx.oracle_fail(case, det)
@@ -809,23 +947,36 @@ def compare(ctx, outs, pending):
                     d.update({'model': 'err ' + mres[1], 'impl': 'err ' + str(res[1])})
                     ctx.disagree(case, d)
             else:
-                # exact model says error, implementation returned: only singular-by-rounding is a tie
-                if mres[1] == 'singular' and mode == 'F':
+                # model says error, implementation returned: only singular-by-rounding is a tie.
+                # fit_general: the guard quantity computed exactly from the data must be inside the
+                # band around 2^-52 (widened by the model's own rounding error in double mode)
+                if mres[1] == 'singular' and geom == 'general' and 'ratio' in info and \
+                        guard_mismatch_is_tie(info['ratio'], mode, len(case['uv'])):
                     ctx.near_tie()
-                elif mres[1] == 'singular' and geom == 'general' and (opt is None or opt.get('status') != 'ok'):
-                    ctx.near_tie()      # degenerate input of fit_general: C17 / finding F13
+                    ctx.branch('guard-mismatch-in-band:' + mode)
+                elif mres[1] == 'singular' and geom != 'general' and mode == 'F':
+                    ctx.near_tie()
                 else:
                     d = dict(op)
                     d.update({'model': 'err ' + mres[1], 'impl': res[1]})
+                    if 'ratio' in info:
+                        d['guard_quantity'] = float(info['ratio'])
                     ctx.disagree(case, d)
             continue
         # model returned parameters
         if res[0] == 'err':
-            if res[1] == 'singular' and (mode == 'F' or opt is None or opt.get('status') != 'ok'):
+            if res[1] == 'singular' and geom == 'general' and 'ratio' in info and \
+                    guard_mismatch_is_tie(info['ratio'], mode, len(case['uv'])):
+                ctx.near_tie()
+                ctx.branch('guard-mismatch-in-band:' + mode)
+            elif res[1] == 'singular' and geom != 'general' and \
+                    (mode == 'F' or opt is None or opt.get('status') != 'ok'):
                 ctx.near_tie()
             else:
                 d = dict(op)
                 d.update({'model': [float(v) for v in mres[1]], 'impl': 'err ' + str(res[1])})
+                if 'ratio' in info:
+                    d['guard_quantity'] = float(info['ratio'])
                 ctx.disagree(case, d)
             continue
         if opt is None or opt.get('status') != 'ok':
@@ -864,6 +1015,36 @@ def compare(ctx, outs, pending):
             ctx.disagree(case, d)
 
 
+def iter_degenerate(ctx):
+    """the exactly collinear / coincident corpus through iter_linear_fit(fitgeom='general'), without and with
+    clipping, and through the model of iter_linear_fit on exact rationals (driver op `iterfit Q`): both must
+    report SingularMatrixError / `err singular`"""
+    from . import c07 as C7
+    lf = C7._lf()
+    sets = [c for c in corpus() if c.get('expect') == 'singular' and c['geom'] == 'general']
+    for _ in range(ctx.n(12, 120)):
+        sets.append(gen_degenerate_general(ctx.rng, ctx.rng.choice(['collinear-general', 'coincident-general'])))
+    lines, pend = [], []
+    for c in sets:
+        for nclip, accum, center in ((0, False, None), (3, False, None), (3, True, [1.0, -2.0])):
+            cfg = {'xy': c['xy'], 'uv': c['uv'], 'wxy': c['wxy'], 'wuv': c['wuv'], 'fitgeom': 'general',
+                   'center': center, 'sigma': 3.0, 'stat': 'rmse', 'accum': accum}
+            case = {'op': 'iter-degenerate', 'nclip': nclip, 'accum': accum, 'center': center, 'uv': c['uv'],
+                    'xy': c['xy'], 'wxy': c['wxy'], 'wuv': c['wuv']}
+            ctx.case(case, nontrivial=True, branch='iter-degenerate:nclip=%d' % nclip)
+            r = C7.impl_call(cfg, nclip)
+            if r[0] != 'err' or r[1] != 'singular':
+                ctx.oracle_fail(case, {'what': 'iter_linear_fit(fitgeom=general) on exactly collinear / coincident '
+                                               'points did not raise SingularMatrixError',
+                                       'got': r[1] if r[0] == 'err' else 'returned a fit'})
+            lines.append(C7.model_line(cfg, nclip, 'Q'))
+            pend.append((case, r))
+    for out, (case, r) in zip(ctx.driver(lines), pend):
+        if out.split()[:2] != ['err', 'singular']:
+            ctx.disagree(case, {'op': 'iterfit', 'mode': 'Q', 'model': out[:80],
+                                'impl': 'err ' + r[1] if r[0] == 'err' else 'returned a fit'})
+
+
 def strip(case):
     return {k: v for k, v in case.items() if not k.startswith('_')}
 
@@ -883,6 +1064,7 @@ def run(ctx):
     for i in range(0, len(lines), chunk):
         outs.extend(ctx.driver(lines[i:i + chunk]))
     compare(ctx, outs, pending)
+    iter_degenerate(ctx)
     for lst in (ctx.disagreements, ctx.oracle_failures):
         for d in lst:
             d['case'] = strip(d['case'])
